@@ -35,7 +35,7 @@ def extract(pkg_dir, crate, config="default", tag=None):
     if not os.path.exists(DRIVER):
         raise ExtractError("driver not built: run MANIFEST.setup_cmd (cargo build in /verif/driver)")
     args, rustflags = CONFIGS[config]
-    tag = tag or (crate + "-" + config)
+    tag = (tag or (crate + "-" + config)) + os.environ.get("VERIF_CACHE_TAG", "")
     tdir = os.path.join(CACHE, "target-" + tag)
     fdir = os.path.join(CACHE, "facts-" + tag)
     os.makedirs(tdir, exist_ok=True)
